@@ -533,6 +533,10 @@ def info_roundtrip_rule(P, rep, rid='R-C10-6'):
     import itertools
     rep.rule(rid, 'info record round trip through the writer and reader regions: every position gets back its flags and its time (clipped to [oldest, now]) for all arrays of length <= 4 over a 5-value palette', 1000)
     wf = P.fn('state_write_thread'); rf = P.fn('state_read_content')
+    # functions the model replaces by name: if one was renamed the model would silently run the real body on empty objects
+    for nm in ('fs_info_is_required', 'info_get', 'info_set', 'sgetb32', 'sputb32'):
+        if not P.has(nm):
+            raise AnalysisBroken('anchor function %s not found in program' % nm)
     mk = (P.variants('info_make') or [None])[0]
     if mk is None:
         raise AnalysisBroken('info_make not found')
@@ -787,6 +791,9 @@ def info_oldest_rule(P, rep, rid):
     from .. import region as RG
     import itertools
     f = P.fn('state_write_content')
+    from .C05 import locate_in_helpers
+    # the search loop may have been split out into a static helper: interpret it where it lives
+    f = locate_in_helpers(P, f, lambda g_: any(True for _ in g_.calls('info_get')) and any(True for _ in g_.calls('fs_position_is_required'))) or f
     rep.analysed(f)
     rep.rule(rid, 'state_write_content: the base time of the info record is <= every non-zero time of the required positions (arrays of length <= 4 over times 0 / 16 / 24 / 40 with and without the bad flag)', 1)
     mk = (P.variants('info_make') or [None])[0]
